@@ -61,6 +61,8 @@ def fee_fn(name):
         return lambda q, p: 1.0
     if name == "maxflat":
         return lambda q, p: max(1.0, abs(q) * 0.125)
+    if name == "selllevy":  # direction-dependent: a levy on sales only (+ a small symmetric part)
+        return lambda q, p: (0.0625 * abs(q) * p if q < 0 else 0.0) + 0.03125 * abs(q)
     if name == "propdec":
         return lambda q, p: abs(q) * p * 0.001
     if name == "mixdec":
@@ -128,6 +130,11 @@ class Tree(object):
             s1 = bt.Strategy("s1", [], [s11, "b"])
             root = bt.Strategy("r", [], [s1])
             cols = ["a", "b"]
+        elif shape == "MC":
+            # a market-value strategy holding a coupon-paying security that is weighted by market value
+            root = bt.Strategy("r", [], [bt.CouponPayingSecurity("c", multiplier=m.get("c", 1), fixed_income=False), S("e")])
+            cols = ["c", "e"]
+            self.fi = True  # (uses the coupon / cost tables)
         elif shape == "F1":
             ch = [
                 bt.FixedIncomeSecurity("f", multiplier=m.get("f", 1)),
@@ -148,8 +155,10 @@ class Tree(object):
             self.data = frame(FI_TABLES[alpha], n, cols)
             cp = [c for c in cols if c in ("c", "ch")]
             kw["coupons"] = frame(COUPONS[alpha], n, cp)
-            if spec.get("carry", True):
+            carry = spec.get("carry", True)
+            if carry in (True, "long_only"):
                 kw["cost_long"] = frame(COST_LONG[alpha], n, cp)
+            if carry in (True, "short_only"):
                 kw["cost_short"] = frame(COST_SHORT[alpha], n, cp)
         else:
             self.data = frame(TABLES[alpha], n, cols)
@@ -310,7 +319,10 @@ def snapshot(tree):
         else:
             d["kind"] = "X"
             d["cls"] = type(n).__name__
-            d["mult"] = f(n.multiplier)
+            # the multiplier the DRIVER asked for (not the node's own attribute: a constructor
+            # that loses the argument must not make the oracle agree with it)
+            d["mult"] = float(tree.spec.get("mult", {}).get(n.name, 1))
+            d["mult_attr"] = f(n.multiplier)
             # value/weight first: reading `price` re-marks the security on its own and
             # would mask a security that the tree update skipped
             d["value"] = f(n.value)
